@@ -3,6 +3,7 @@ package main
 import (
 	"fmt"
 	"go/token"
+	"go/types"
 	"sort"
 	"strings"
 
@@ -100,7 +101,12 @@ func runC12(c *Ctx) {
 				}
 				v = env.resolve(w.resolveLoad(v))
 				ex, ok := v.(*ssa.Extract)
-				return ok && ex.Tuple == fc && ex.Index == 0
+				if ok && ex.Tuple == fc && ex.Index == 0 {
+					return true
+				}
+				// re-validated: the path learned that the table's entry under the key IS this
+				// transaction (cur, ok := Find(tr.Key); ok && cur == tr)
+				return knownSameAsFind(w, env, fc, v) == 1
 			}
 			cfg := &ipCfg[st]{w: w}
 			cfg.Inline = func(_ ssa.CallInstruction, h *ssa.Function) bool {
@@ -261,6 +267,10 @@ func runC12(c *Ctx) {
 						notFound = true
 					}
 				}
+			}
+			// the entry now under the key is another transaction: ours is gone just the same
+			if s.find != nil && knownSameAsFind(w, env, s.find, nil) == -1 {
+				notFound = true
 			}
 			okA := notFound && !s.del && !s.res && !s.arm
 			okB := !notFound && s.del && s.res && !s.arm
@@ -932,22 +942,64 @@ func ruleResultOwnedByWaiter(c *Ctx, rule string) {
 		is, _ := handsOver(in)
 		return is || isPut(in)
 	})
-	cfg := &ipCfg[bool]{w: w}
+	// WriteResult reporting false means that nobody received the result — provided that is what
+	// its body says: no path of it sends on a channel and then returns anything but true
+	falseMeansKept := func() bool {
+		good := true
+		wc := &ipCfg[bool]{w: w}
+		wc.Inline = func(_ ssa.CallInstruction, h *ssa.Function) bool { return w.IsMod[h] }
+		wc.Step = func(in ssa.Instruction, sent bool, _ *pathEnv, _ []ssa.CallInstruction) bool {
+			switch x := in.(type) {
+			case *ssa.Send:
+				return true
+			case *ssa.Select:
+				for _, st := range x.States {
+					if st.Dir == types.SendOnly {
+						return true
+					}
+				}
+			case *ssa.Store:
+				return sent
+			case ssa.CallInstruction:
+				if _, isB := x.Common().Value.(*ssa.Builtin); isB {
+					return sent
+				}
+				if h := x.Common().StaticCallee(); h == nil || !w.IsMod[h] {
+					return true // an unknown call may publish the result
+				}
+			}
+			return sent
+		}
+		wc.Return = func(r *ssa.Return, sent bool, env *pathEnv) {
+			if !sent || len(r.Results) != 1 {
+				return
+			}
+			if known, t := env.eval(r.Results[0], 0); !known || !t {
+				good = false
+			}
+		}
+		explorePaths(wc, write, false)
+		return good && !wc.Exhausted
+	}()
+	cfg := &ipCfg[*ssa.Call]{w: w}
 	cfg.Inline = func(_ ssa.CallInstruction, h *ssa.Function) bool {
 		return w.IsMod[h] && h != write && may(h)
 	}
 	bad := ""
-	cfg.Step = func(in ssa.Instruction, handed bool, _ *pathEnv, _ []ssa.CallInstruction) bool {
+	cfg.Step = func(in ssa.Instruction, handed *ssa.Call, env *pathEnv, _ []ssa.CallInstruction) *ssa.Call {
 		if is, _ := handsOver(in); is {
-			return true
+			return in.(*ssa.Call)
 		}
-		if handed && isPut(in) {
+		if handed != nil && isPut(in) {
+			if known, t := env.eval(handed, 0); falseMeansKept && known && !t {
+				return handed // the path learned that nobody received it
+			}
 			bad = "after the decoded message was handed to the waiting transaction, this invocation puts an object back into a sync.Pool at " + w.instrPos(in)
 		}
 		return handed
 	}
-	cfg.Return = func(*ssa.Return, bool, *pathEnv) {}
-	explorePaths(cfg, handle, false)
+	cfg.Return = func(*ssa.Return, *ssa.Call, *pathEnv) {}
+	explorePaths(cfg, handle, nil)
 	switch {
 	case cfg.Exhausted:
 		c.Bad(rule, fname(handle), "no recycling after hand-over", w.pos(handle.Pos()), "undecided: path exploration exceeded its budget")
@@ -956,4 +1008,39 @@ func ruleResultOwnedByWaiter(c *Ctx, rule string) {
 	default:
 		c.OK(rule, fname(handle), "no recycling after hand-over", w.pos(handle.Pos()), "no sync.Pool.Put is reachable after the hand-over")
 	}
+}
+
+// knownSameAsFind: what the path knows about `Find result == v` (v nil: any value): 1 equal,
+// -1 unequal, 0 nothing.
+func knownSameAsFind(w *World, env *pathEnv, fc *ssa.Call, v ssa.Value) int {
+	isRes := func(x ssa.Value) bool {
+		ex, ok := env.resolve(w.resolveLoad(x)).(*ssa.Extract)
+		return ok && ex.Tuple == ssa.Value(fc) && ex.Index == 0
+	}
+	for cond, t := range env.truth {
+		bo, ok := cond.(*ssa.BinOp)
+		if !ok || (bo.Op != token.EQL && bo.Op != token.NEQ) {
+			continue
+		}
+		var other ssa.Value
+		switch {
+		case isRes(bo.X):
+			other = bo.Y
+		case isRes(bo.Y):
+			other = bo.X
+		default:
+			continue
+		}
+		if isNilConst(other) {
+			continue
+		}
+		if v != nil && env.resolve(w.resolveLoad(other)) != v {
+			continue
+		}
+		if (bo.Op == token.EQL) == t {
+			return 1
+		}
+		return -1
+	}
+	return 0
 }
